@@ -26,28 +26,70 @@ func runC02(r *Run, p *Prog) {
 		cs   CallSite
 		role string
 	}
-	var writes []wsite
-	for _, w := range ro.WSites {
-		writes = append(writes, wsite{w, "service reply"})
+	// Frames are looked at where they are made: in the innermost function of package varlink whose inlined view
+	// (inline.go; ctxio stays a call) contains both the encoder call and the protocol write. Whether the encoding, the
+	// terminator or the write sit in helpers of that function makes no difference.
+	keepCtxio := func(callee *ssa.Function) bool { return fnPkgPath(callee) != pkgVarlink }
+	isEncoder := func(cs CallSite) bool {
+		n := cs.Name()
+		return n == "json.Marshal" || n == "json.Encoder.Encode" || n == "json.MarshalIndent"
 	}
+	var roots []*ssa.Function
 	for _, f := range p.FuncsOf(pkgVarlink) {
-		for _, cs := range callsIn(f, false) {
+		if f.Parent() != nil || len(f.Blocks) == 0 {
+			continue
+		}
+		v := p.Inlined(f, keepCtxio)
+		hasW, hasE := false, false
+		for _, cs := range callsIn(v, false) {
+			if isProtoWrite(cs) {
+				hasW = true
+			}
+			if isEncoder(cs) {
+				hasE = true
+			}
+		}
+		if hasW && hasE {
+			roots = appendFn(roots, f)
+		}
+	}
+	var writes []wsite
+	covered := map[*ssa.Function]bool{}
+	for _, f := range roots {
+		inner := true
+		for _, g := range roots {
+			if g != f && cg.Reach([]*ssa.Function{f}, false)[g] {
+				inner = false
+			}
+		}
+		if !inner {
+			continue
+		}
+		v := p.Inlined(f, keepCtxio)
+		cg.AddView(v)
+		for g := range cg.Reach([]*ssa.Function{f}, false) {
+			covered[g] = true
+		}
+		for _, cs := range callsIn(v, false) {
 			if !isProtoWrite(cs) {
 				continue
 			}
-			dup := false
-			for _, w := range writes {
-				if w.cs.Instr == cs.Instr {
-					dup = true
-				}
+			role := "other"
+			if cs.Common.IsInvoke() && ro.rootedInCall(cs.Common.Value) {
+				role = "service reply"
+			} else if strings.Contains(strip(T.T(recvOf(cs))), ".conn") {
+				role = "client call"
 			}
-			if dup {
-				continue
-			}
-			// client side: receiver rooted in a Connection
-			if strings.Contains(strip(T.T(recvOf(cs))), ".conn") {
-				writes = append(writes, wsite{cs, "client call"})
-			} else {
+			writes = append(writes, wsite{cs, role})
+		}
+	}
+	// protocol writes of the package outside any such function: no frame construction can be established for them
+	for _, f := range p.FuncsOf(pkgVarlink) {
+		if covered[f] {
+			continue
+		}
+		for _, cs := range callsIn(f, false) {
+			if isProtoWrite(cs) {
 				writes = append(writes, wsite{cs, "other"})
 			}
 		}
